@@ -181,11 +181,35 @@ def utf8 (v : Nat) : List Nat :=
 def utf16 (v : Nat) : List Nat :=
   if v < 0x10000 then [v] else [0xD800 + (v - 0x10000) / 1024, 0xDC00 + (v - 0x10000) % 1024]
 
-/-- `array.get_s` sign-extends the i8; `String.fromCharCode` applies ToUint16 -/
-def byteToUnit (b : Nat) : Nat := if b < 128 then b else 65280 + b
+/-- `array.get_s` sign-extends the i8; storing it into a `Uint8Array` keeps it modulo 256, i.e. the
+original byte (`loader.js:6-15` after fix 8056d1e; before the fix each sign-extended byte went
+through `String.fromCharCode` on its own: finding C04-F4). -/
+def byteToU8 (b : Nat) : Nat := (if b < 128 then b else 65280 + b) % 256
 
-/-- WebAssembly: the content's UTF-8 bytes, one UTF-16 code unit per *byte* -/
-def wasmDecode (s : Text) : List Nat := (s.flatMap utf8).map byteToUnit
+def isCont (b : Nat) : Bool := 128 ≤ b && b < 192
+
+/-- `new TextDecoder().decode(bytes)`: UTF-8 to scalar values; a malformed sequence yields U+FFFD
+(the exact resynchronisation of the WHATWG decoder is not modelled: malformed input cannot arise
+from samlang strings, which are `&str` constants, `Str.fromInt` results and concatenations). -/
+def utf8Decode : List Nat → List Nat
+  | [] => []
+  | b0 :: rest =>
+    if b0 < 128 then b0 :: utf8Decode rest
+    else if 192 ≤ b0 ∧ b0 < 224 ∧ isCont (rest.getD 0 0) then
+      ((b0 - 192) * 64 + (rest.getD 0 0 - 128)) :: utf8Decode (rest.drop 1)
+    else if 224 ≤ b0 ∧ b0 < 240 ∧ isCont (rest.getD 0 0) ∧ isCont (rest.getD 1 0) then
+      ((b0 - 224) * 4096 + (rest.getD 0 0 - 128) * 64 + (rest.getD 1 0 - 128)) :: utf8Decode (rest.drop 2)
+    else if 240 ≤ b0 ∧ b0 < 248 ∧ isCont (rest.getD 0 0) ∧ isCont (rest.getD 1 0) ∧ isCont (rest.getD 2 0) then
+      ((b0 - 240) * 262144 + (rest.getD 0 0 - 128) * 4096 + (rest.getD 1 0 - 128) * 64 + (rest.getD 2 0 - 128))
+        :: utf8Decode (rest.drop 3)
+    else 65533 :: utf8Decode rest
+termination_by l => l.length
+decreasing_by all_goals simp_wf <;> omega
+
+/-- WebAssembly: the content's UTF-8 bytes in the data segment, read back byte by byte and decoded
+as UTF-8 by the loader; the JS string holds the UTF-16 code units. -/
+def wasmDecode (s : Text) : List Nat :=
+  (utf8Decode ((s.flatMap utf8).map byteToU8)).flatMap utf16
 
 def isDigit (c : Nat) : Bool := 48 ≤ c && c ≤ 57
 
@@ -216,6 +240,18 @@ def tsCook : Text → Option (List Nat)
   | c :: rest => (tsCook rest).map (utf16 c ++ ·)
 termination_by s => s.length
 decreasing_by all_goals simp_wf <;> omega
+
+/-- `Sources::pretty_print` (`lir.rs:662-672`, after fix 0e855e5): the content is pasted between
+back quotes with every back quote and every `${` escaped by a backslash
+(`.replace('`', "\\`").replace("${", "\\${")`; before the fix it was pasted as is: finding C04-F3). -/
+def tsEscape : Text → Text
+  | [] => []
+  | 96 :: r => 92 :: 96 :: tsEscape r
+  | 36 :: 123 :: r => 92 :: 36 :: 123 :: tsEscape r
+  | c :: r => c :: tsEscape r
+
+/-- the JS string the emitted TypeScript holds for a constant with this content -/
+def tsDecode (s : Text) : Option (List Nat) := tsCook (tsEscape s)
 
 /-- `string_has_valid_escape` (`lexer.rs:685-702`) run over the literal's inside -/
 def validEscapes : Bool → Text → Bool
@@ -274,12 +310,11 @@ def wasmToIntLoop : List Nat → Int → Option Int
     if (c + 208) % 256 > 9 then none      -- ((c - 48) & 255) >u 9
     else wasmToIntLoop rest (wrap32 (wrap32 (wrap32 (acc * 10) + c) - 48))
 
-/-- `none` = engine trap: the "check empty string" block of `libsam.wat:159` re-uses the label
-`$B0` for an inner block, so it never leaves the function and `array.get_s … 0` runs on an empty
-array (observed: `"".toInt()` traps with "array element access out of bounds"). -/
+/-- The empty string yields 0 (after fix 394f1b2; before it the "check empty string" block re-used
+the label `$B0` and `"".toInt()` trapped). `Option` is kept for the protocol: always `some`. -/
 def wasmToInt (s : List Nat) : Option Int :=
   match s with
-  | [] => none
+  | [] => some 0
   | c :: rest =>
     let neg := c = 45
     match wasmToIntLoop (if neg then rest else s) 0 with
@@ -332,16 +367,21 @@ inductive VRes
   | fail (msg : String)   -- run stops here
   deriving DecidableEq, Repr
 
+/-- messages of `$__$vecPanic` (after fix 361669d both runtimes panic with the same text; before it
+the WebAssembly runtime executed `unreachable`: finding C04-F6) -/
+def POP_EMPTY : String := "pop from empty Vec"
+def OOB : String := "Vec index out of bounds"
+
 /-- TypeScript runtime (`lir.rs:596-651`): a JS array of plain numbers -/
 def tsVecStep (t : List Int) : VOp → List Int × VRes
   | .push v => (t ++ [v], .unit)
   | .pop =>
-    if t.length = 0 then (t, .fail "pop from empty Vec")
+    if t.length = 0 then (t, .fail POP_EMPTY)
     else (t.take (t.length - 1), .val (t.getD (t.length - 1) 0))
   | .get i =>
-    if i < 0 ∨ i ≥ t.length then (t, .fail "Vec index out of bounds") else (t, .val (t.getD i.toNat 0))
+    if i < 0 ∨ i ≥ t.length then (t, .fail OOB) else (t, .val (t.getD i.toNat 0))
   | .set i v =>
-    if i < 0 ∨ i ≥ t.length then (t, .fail "Vec index out of bounds") else (t.set i.toNat v, .unit)
+    if i < 0 ∨ i ≥ t.length then (t, .fail OOB) else (t.set i.toNat v, .unit)
   | .len => (t, .val t.length)
   | .reserve _ => (t, .unit)                 -- `(_t, _n) => 0`
 
@@ -370,27 +410,25 @@ def wReserve (w : WVec) (min : Nat) : WVec :=
     let c3 := if c2 < 4 then 4 else c2
     { w with data := w.data.take w.len ++ List.replicate (c3 - w.len) none }
 
-def TRAP : String := "unreachable"
-
 /-- one call, including the boxing (`ref.i31`) / unboxing (`$__$unwrapI31`) at the call site -/
 def wasmVecStep (w : WVec) : VOp → WVec × VRes
   | .push v =>
     let w1 := wReserve w (w.len + 1)
     ({ data := w1.data.set w.len (some (i31wrap v)), len := w.len + 1 }, .unit)
   | .pop =>
-    if w.len = 0 then (w, .fail TRAP)
+    if w.len = 0 then (w, .fail POP_EMPTY)
     else
       match w.data.getD (w.len - 1) none with
       | none => (w, .fail "null")
       | some n => ({ data := w.data.set (w.len - 1) none, len := w.len - 1 }, .val n)
   | .get i =>
     -- `i32.ge_u i len`: a negative index is a huge unsigned one
-    if i < 0 ∨ i ≥ w.len then (w, .fail TRAP)
+    if i < 0 ∨ i ≥ w.len then (w, .fail OOB)
     else match w.data.getD i.toNat none with
       | none => (w, .fail "null")
       | some n => (w, .val n)
   | .set i v =>
-    if i < 0 ∨ i ≥ w.len then (w, .fail TRAP)
+    if i < 0 ∨ i ≥ w.len then (w, .fail OOB)
     else ({ w with data := w.data.set i.toNat (some (i31wrap v)) }, .unit)
   | .len => (w, .val w.len)
   | .reserve n => (wReserve w n.toNat, .unit)   -- `i32.le_s min cap`: a negative `min` never grows
